@@ -43,6 +43,11 @@ TYPES = [
     record("IncBase", [F("x", P("int32"), default="5"), F("y", P("string"))]),
     record("IncMid", [F("m", P("int32"))], includes=["IncBase"]),
     record("IncTop", [F("t", P("string"), optional=True)], includes=["IncMid"]),
+    # two records including the same record, which itself includes one (shared required-field lists)
+    record("SibA", [F("a1", P("int32")), F("a2", P("string"))]),
+    record("SibE", [F("e", P("int32"))], includes=["SibA"]),
+    record("SibG", [F("g", P("string"))], includes=["SibE"]),
+    record("SibP", [F("p", P("int32"))], includes=["SibE"]),
     named("standaloneUnion", "U", Union={"HasNull": False, "Members": [
         {"Type": P("int32"), "Alias": "int"}, {"Type": P("string"), "Alias": "string"},
         {"Type": R("Leaf"), "Alias": "vt.Leaf"}, {"Type": R("Color"), "Alias": "vt.Color"},
@@ -108,6 +113,9 @@ RESOURCES = [
              ], ro=["id", "nested/b", "tags/*/b"], co=["created"]),
     resource([seg("collRet", "collRetId", P("int64"))], R("Ent"),
              rest(["get", "create", "batch_create", "partial_update"], return_entity=("create", "batch_create", "partial_update"))),
+    # exclusion shapes of their own: a directive naming a whole record-typed field; create-only annotations without any read-only one
+    resource([seg("collRO", "collROId", P("int64"))], R("Ent"), rest(["get", "create", "update", "partial_update"]), ro=["nested"]),
+    resource([seg("collCO", "collCOId", P("int64"))], R("Ent"), rest(["get", "create", "update", "partial_update", "batch_update"]), co=["created"]),
     resource([seg("collCK", "collCKId", R("CK"))], R("Leaf"),
              rest(["get", "create", "batch_get", "batch_update", "batch_partial_update", "batch_delete"])),
     resource([seg("collTr", "collTrId", R("TrInt"))], R("Leaf"), rest(["get", "batch_get", "batch_delete"])),
